@@ -24,6 +24,20 @@ def g1_points(rng, tier):
     return pts
 
 
+def g2_axis_y(n=3):
+    """points of E' whose y is purely real or purely imaginary (the tie-break cases of the sign rule), small and large"""
+    out = []
+    for mk in (lambda t: O.Fp2(t, 0, P), lambda t: O.Fp2(0, t, P), lambda t: O.Fp2(P - t, 0, P), lambda t: O.Fp2(0, P - t, P)):
+        t, found = 0, 0
+        while found < n and t < 300:
+            t += 1
+            Pt = O.g2_point_with_y(mk(t))
+            if Pt is not None:
+                out.append(Pt)
+                found += 1
+    return out
+
+
 def g2_special(rng):
     """G2 points with y_im = 0 or y_re = 0: x real => x^3 + 4 + 4i ... search small real/imag x"""
     out = []
@@ -40,7 +54,7 @@ def g2_special(rng):
 def g2_points(rng, tier):
     pts = [None, O.g2(1), O.g2(rng.randrange(1, O.BLS_R)), O.rand_curve_point_g2(rng), O.torsion_g2(rng)] + g2_special(rng)
     # y exactly at the boundary of the sign rule: imaginary part (p-1)/2 and (p+1)/2 (and the real-part analogue)
-    bd = O.g2_points_y_boundary(1 if tier == "quick" else 3)
+    bd = O.g2_points_y_boundary(1 if tier == "quick" else 3) + g2_axis_y(2 if tier == "quick" else 5)
     pts += bd + [O.aff_neg(P) for P in bd]
     Q = O.rand_curve_point_g2(rng)
     pts += [Q, O.aff_neg(Q)]
